@@ -147,8 +147,14 @@ func (c *Ctx) prefixFree(tk *TreeKind) prefixFreeInfo {
 		}
 	}
 	if external {
-		c.r.assume(fmt.Sprintf("%s: sort keys of distinct strings are not prefixes of one another (golang.org/x/text collation keys end in level separators; library contract)", tk.Name))
-		return prefixFreeInfo{ok: true, class: "contract", reason: "x/text sort-key contract"}
+		// The sort keys of an external collator are prefix-free among DIFFERENT sort keys (level
+		// separators), but the collator does not keep different strings apart: canonically
+		// equivalent strings ("\u00e9" vs "e\u0301") and all ill-formed UTF-8 bytes (→ U+FFFD)
+		// get one and the same sort key. The tree tells keys apart by the original string
+		// (R02/R16) but places them by the sort key – so two keys can be equal as index keys,
+		// which is the degenerate case of one being a prefix of the other.
+		c.r.assume(fmt.Sprintf("%s: different sort keys are not prefixes of one another (golang.org/x/text collation keys end in level separators; library contract)", tk.Name))
+		return prefixFreeInfo{class: "sort-key-not-injective", reason: "the collator gives different strings the same sort key (canonical equivalents such as \"\\u00e9\" and \"e\\u0301\", every ill-formed UTF-8 byte): keys are compared by their original string but placed by their sort key, so a second key with the sort key of a stored one exhausts both keys at the split"}
 	}
 	// fixed width?
 	fixed := true
@@ -295,7 +301,13 @@ func ruleR05(c *Ctx) {
 		if pf.ok {
 			c.r.ok("R05", tk.Name+" prefix-free keys", pos, pf.class+": "+pf.reason, props...)
 		} else {
-			c.r.bad("R05", tk.Name+" "+map[bool]string{true: "terminator-on-unsanitised-payload", false: "keys-not-prefix-free"}[pf.class == "terminated-unsanitised"], pos, pf.reason, props...)
+			inst := map[bool]string{true: "terminator-on-unsanitised-payload", false: "keys-not-prefix-free"}[pf.class == "terminated-unsanitised"]
+			if pf.class == "sort-key-not-injective" {
+				inst = "sort-key-not-injective"
+				// C08 is stated for collators that tell the stored strings apart: not attributed
+				props = []string{"C01", "C06"}
+			}
+			c.r.bad("R05", tk.Name+" "+inst, pos, pf.reason, props...)
 		}
 	}
 	c.r.floor("R05", 4, "tree kinds", "C01")
